@@ -122,7 +122,9 @@ class _Jac(LinearOperator):
         self.fcn = fcn
         self.yparam = yparam
         self.params = list(params)
-        self.objparams = fcn.objparams()
+        # own list: the linear operator's parameters can be replaced without
+        # touching the list that the pure function keeps of its current objparams
+        self.objparams = list(fcn.objparams())
         self.yout = yout
         self.v = v
         self.idx = idx
